@@ -544,7 +544,7 @@ class Engine(object):
                 r = OPAQUE
             else:
                 r = self._compact(f, paths)
-                if r is not OPAQUE and any(len(sp.events) > Limits.max_summary_events for sp in r):
+                if r is not OPAQUE and any(sum(1 for e in sp.events if e.kind in ('call', 'throw', 'store')) > Limits.max_summary_events for sp in r):
                     r = OPAQUE
         finally:
             self.in_progress.discard(name)
@@ -585,6 +585,14 @@ class Engine(object):
         collect: list receiving SPaths (summary mode).  Returns False if path_limit exceeded."""
         if path_limit is None:
             path_limit = Limits.max_paths
+        saved_tags = self.field_tag
+        self.field_tag = {}
+        try:
+            return self._walk(f, rules, collect, path_limit, depth, on_exit)
+        finally:
+            self.field_tag = saved_tags
+
+    def _walk(self, f, rules, collect, path_limit, depth, on_exit):
         st = State()
         for i, (ty, nm, at) in enumerate(f.params):
             st.env[nm] = atom(('arg', i))
@@ -633,7 +641,7 @@ class Engine(object):
                         return False
                     _, ek, s2, rv = item
                     for i, r in enumerate(rules):
-                        r.on_exit(s2.rs[i], ek, s2, f, self)
+                        r.on_exit(s2.rs[i], ek, s2, f, self, rv)
                     if collect is not None:
                         collect.append(SPath(s2.conds, s2.events, s2.stores, rv, ek))
                     if on_exit is not None:
@@ -642,19 +650,47 @@ class Engine(object):
 
     def _havoc_loop(self, f, st, hdr, body):
         """Forget every memory cell that the loop body may write."""
-        written_roots = set()
-        any_opaque = False
+        roots = set()
+        cells = set()
+        clear_all = False
         for lb in body:
             for ins in f.blocks[lb].instrs:
                 if ins.op == 'store':
-                    any_opaque = True
+                    v = st.env.get(ins.b) if ins.b and ins.b[0] == '%' else None
+                    if v is None:
+                        clear_all = True
+                    else:
+                        cells.add(v)
                 elif ins.op in ('call', 'invoke'):
-                    any_opaque = True
-        if any_opaque:
+                    cn = ins.callee[1:].strip('"') if ins.callee and ins.callee[0] == '@' else None
+                    if cn is not None and (cn.startswith('llvm.dbg') or cn.startswith('llvm.lifetime')):
+                        continue
+                    wr = True if cn is None else (self.oracle.may_write_fields(cn)
+                                                  or cn.startswith('llvm.mem'))
+                    for a in ins.args or ():
+                        if a and a[0] == '%':
+                            v = st.env.get(a)
+                            if v is None:
+                                # defined inside the loop: cannot name what it points to
+                                if wr:
+                                    clear_all = True
+                                continue
+                            for at, c in v[2]:
+                                if wr or at[0] == 'alloca':
+                                    roots.add(at)
+        if clear_all:
             for a in list(st.mem.keys()):
                 for at, c in a[2]:
                     st.hv[at] = ('loop', f.name, hdr)
             st.mem.clear()
+            return
+        for r in roots:
+            st.hv[r] = ('loop', f.name, hdr)
+        for addr in list(st.mem.keys()):
+            if addr in cells or any(at in roots for at, c in addr[2]):
+                del st.mem[addr]
+                for at, c in addr[2]:
+                    st.hv.setdefault(at, ('loop', f.name, hdr))
 
     def emit(self, st, ev, rules, f):
         if rules:
@@ -999,8 +1035,7 @@ class Engine(object):
             ev.ret = atom(('ret', site))
             if ins.res:
                 st.env[ins.res] = ev.ret
-            self.emit(st, ev, rules, f)
-            return self._conts_opaque(f, ins, st, ev)
+            return self._conts_opaque(f, ins, st, ev, rules)
         name = callee[1:].strip('"')
         # intrinsics
         if name.startswith('llvm.'):
@@ -1012,13 +1047,13 @@ class Engine(object):
         if summ is OPAQUE:
             ev = Ev('call', callee=name, args=args, ins=ins, fn=f, site=site, argtys=ins.argtys)
             ev.may_throw = self.oracle.may_throw(name) and not ins.nounwind_site
-            ev.ret = atom(('ret', site))
+            pure = self.oracle.pure_result(name, args)
+            ev.ret = atom(pure) if pure is not None else atom(('ret', site))
             if ins.res:
                 st.env[ins.res] = ev.ret
             # havoc memory reachable from pointer arguments that the callee may write
             self._havoc_call(f, st, name, args, site)
-            self.emit(st, ev, rules, f)
-            return self._conts_opaque(f, ins, st, ev)
+            return self._conts_opaque(f, ins, st, ev, rules)
         # expand summary paths
         ev0 = Ev('enter', callee=name, args=args, ins=ins, fn=f, site=site, argtys=ins.argtys)
         ev0.expanded = True
@@ -1040,20 +1075,26 @@ class Engine(object):
             out.append((kind, s2))
         return out
 
-    def _conts_opaque(self, f, ins, st, ev):
+    def _conts_opaque(self, f, ins, st, ev, rules):
+        """Continuations of an opaque call.  The 'call' event is delivered on the normal
+        continuation (the call completed); on the unwind continuation a 'throw' event with the
+        same callee/arguments is delivered instead (the call raised)."""
         name = ev.callee
-        if name is not None and self.oracle.noreturn(name):
-            res = []
-            if ev.may_throw:
-                res.append(('unwind', st))
-            else:
-                res.append(('noreturn', st))
-            return res
         res = []
         if ev.may_throw:
             s2 = st.fork()
-            s2.exc = ev
+            e2 = Ev('throw', callee=ev.callee, args=ev.args, ins=ev.ins, fn=ev.fn, site=ev.site,
+                    argtys=ev.argtys, ret=ev.ret)
+            e2.may_throw = True
+            s2.exc = e2
+            self.emit(s2, e2, rules, f)
             res.append(('unwind', s2))
+        if name is not None and self.oracle.noreturn(name):
+            if not ev.may_throw:
+                self.emit(st, ev, rules, f)
+                res.append(('noreturn', st))
+            return res
+        self.emit(st, ev, rules, f)
         res.append(('normal', st))
         return res
 
@@ -1153,6 +1194,8 @@ class Engine(object):
             if ev.kind == 'store':
                 st.mem[e2.addr] = e2.val
                 st.stores = st.stores + ((e2.addr, e2.val),)
+            elif ev.kind == 'throw':
+                st.exc = e2
             elif ev.kind == 'call' and not ev.expanded:
                 # opaque call inside the callee: havoc as the callee did
                 if ev.callee is not None:
@@ -1207,5 +1250,5 @@ class Rule(object):
     def on_event(self, rs, ev, st, f, eng):
         return rs
 
-    def on_exit(self, rs, kind, st, f, eng):
+    def on_exit(self, rs, kind, st, f, eng, rv=None):
         pass
